@@ -339,7 +339,49 @@ theorem attrStep_mpUnreach (tb : Bool) (st : ASt) (f : Fam) (nb : Bytes) (h : st
   simp only [show ¬ (144 / 64 % 4 ≠ 128 / 64 % 4) by decide, if_false, show ¬ (15 = 14) by decide, if_true,
     AData.binary?]
 
-/-- MP_UNREACH_NLRI frame: a withdrawal when entries are present, End-of-RIB when the region is empty -/
+/-- MP_UNREACH_NLRI frame with NLRI region `nb`: a withdrawal when entries are decoded, End-of-RIB when none -/
+theorem parseUpdate_unreach_mp_gen (od : OpaqueDec) (peer : Codec) (f : Fam) (nb : Bytes) (dents : List DEntry) (rx : Bool)
+    (hrx : rxOf peer f = some rx) (hfa : f.afi < 65536) (hfs : f.safi < 256)
+    (hnl : nlriList od f rx false nb = .ok dents)
+    (hsz : 7 + nb.length < 65536) :
+    parseUpdate od peer (frame 2 ([0, 0] ++ be16 (encRaw (mpUnreachRaw f nb)).length ++
+        encRaw (mpUnreachRaw f nb))) =
+      (if dents.isEmpty then .msg (.eor f)
+       else .msg (.upd none none none (some (f, dents)) [] [])) := by
+  obtain ⟨pt2, ps, pnb, plen⟩ := mpUnreach_parts f nb
+  have hel : (encRaw (mpUnreachRaw f nb)).length = 7 + nb.length := by
+    rw [encRaw_mpUnreach]; simp; omega
+  have hok : RawOk (mpUnreachRaw f nb) := by
+    refine ⟨?_, fun h => ?_⟩
+    · simp only [mpUnreachRaw]; omega
+    · simp [mpUnreachRaw, hasExt_144] at h
+  unfold parseUpdate
+  have hlen : ¬ (frame 2 ([0, 0] ++ be16 (encRaw (mpUnreachRaw f nb)).length ++
+        encRaw (mpUnreachRaw f nb))).length < 23 := by
+    simp; omega
+  simp only [hlen, if_false, frame_body]
+  have hsec : updateSections ([0, 0] ++ be16 (encRaw (mpUnreachRaw f nb)).length ++
+        encRaw (mpUnreachRaw f nb))
+      = some ⟨[], encRaw (mpUnreachRaw f nb), []⟩ := by
+    have := updateSections_enc [] (encRaw (mpUnreachRaw f nb)) [] (by simp) (by omega)
+    simpa [be16_zero, List.append_assoc] using this
+  simp only [hsec]
+  have htl : tlvs (encRaw (mpUnreachRaw f nb)) = ([mpUnreachRaw f nb], true) := by
+    have := tlvs_encRaw (mpUnreachRaw f nb) [] hok
+    simpa [tlvs] using this
+  simp only [htl, attrLoop]
+  rw [attrStep_mpUnreach _ _ _ _ (by rfl)]
+  have hab : (encRaw (mpUnreachRaw f nb)).isEmpty = false := by
+    rw [encRaw_mpUnreach]; simp
+  simp only [List.isEmpty_nil, hab, Bool.false_eq_true, and_false, false_and, and_true, if_false,
+    not_true_eq_false, Option.isSome_none, or_self, if_true]
+  have hb3 : ¬ (be16 f.afi ++ [f.safi] ++ nb).length < 3 := by omega
+  have hfeq : (⟨f.afi, f.safi⟩ : Fam) = f := by cases f; rfl
+  simp only [hb3, if_false, pt2, ps, pnb, beNat_be16 hfa, beNat_single, hfeq, hrx, hnl]
+  cases dents with
+  | nil => simp
+  | cons e es' => simp [reconcileAs4_nil]
+
 theorem parseUpdate_unreach_mp (od : OpaqueDec) (peer : Codec) (f : Fam) (v6 : Bool) (es : List Entry) (rx : Bool)
     (hrx : rxOf peer f = some rx) (hf : isIpFam f = some v6) (hfa : f.afi < 65536) (hfs : f.safi < 256)
     (hes : ∀ e ∈ es, IpEntryOk v6 e)
@@ -348,41 +390,16 @@ theorem parseUpdate_unreach_mp (od : OpaqueDec) (peer : Codec) (f : Fam) (v6 : B
         encRaw (mpUnreachRaw f (es.flatMap (encE rx))))) =
       (if es = [] then .msg (.eor f)
        else .msg (.upd none none none (some (f, es.map (decE v6 rx))) [] [])) := by
-  obtain ⟨pt2, ps, pnb, plen⟩ := mpUnreach_parts f (es.flatMap (encE rx))
-  have hel : (encRaw (mpUnreachRaw f (es.flatMap (encE rx)))).length = 7 + (es.flatMap (encE rx)).length := by
-    rw [encRaw_mpUnreach]; simp; omega
-  have hok : RawOk (mpUnreachRaw f (es.flatMap (encE rx))) := by
-    refine ⟨?_, fun h => ?_⟩
-    · simp only [mpUnreachRaw]; omega
-    · simp [mpUnreachRaw, hasExt_144] at h
-  unfold parseUpdate
-  have hlen : ¬ (frame 2 ([0, 0] ++ be16 (encRaw (mpUnreachRaw f (es.flatMap (encE rx)))).length ++
-        encRaw (mpUnreachRaw f (es.flatMap (encE rx))))).length < 23 := by
-    simp; omega
-  simp only [hlen, if_false, frame_body]
-  have hsec : updateSections ([0, 0] ++ be16 (encRaw (mpUnreachRaw f (es.flatMap (encE rx)))).length ++
-        encRaw (mpUnreachRaw f (es.flatMap (encE rx))))
-      = some ⟨[], encRaw (mpUnreachRaw f (es.flatMap (encE rx))), []⟩ := by
-    have := updateSections_enc [] (encRaw (mpUnreachRaw f (es.flatMap (encE rx)))) [] (by simp) (by omega)
-    simpa [be16_zero, List.append_assoc] using this
-  simp only [hsec]
-  have htl : tlvs (encRaw (mpUnreachRaw f (es.flatMap (encE rx))))
-      = ([mpUnreachRaw f (es.flatMap (encE rx))], true) := by
-    have := tlvs_encRaw (mpUnreachRaw f (es.flatMap (encE rx))) [] hok
-    simpa [tlvs] using this
-  simp only [htl, attrLoop]
-  rw [attrStep_mpUnreach _ _ _ _ (by rfl)]
-  have hab : (encRaw (mpUnreachRaw f (es.flatMap (encE rx)))).isEmpty = false := by
-    rw [encRaw_mpUnreach]; simp
-  simp only [List.isEmpty_nil, hab, Bool.false_eq_true, and_false, false_and, and_true, if_false,
-    not_true_eq_false, Option.isSome_none, or_self, if_true]
-  have hb3 : ¬ (be16 f.afi ++ [f.safi] ++ es.flatMap (encE rx)).length < 3 := by omega
-  have hfeq : (⟨f.afi, f.safi⟩ : Fam) = f := by cases f; rfl
-  simp only [hb3, if_false, pt2, ps, pnb, beNat_be16 hfa, beNat_single, hfeq, hrx]
-  rw [nlriList_ip od f v6 rx false es hf hes]
-  cases es with
-  | nil => simp
-  | cons e es' => simp [reconcileAs4_nil]
+  rw [parseUpdate_unreach_mp_gen od peer f _ _ rx hrx hfa hfs (nlriList_ip od f v6 rx false es hf hes) hsz]
+  cases es <;> simp
+
+/-- End-of-RIB of any negotiated family -/
+theorem parseUpdate_eor_mp (od : OpaqueDec) (peer : Codec) (f : Fam) (rx : Bool)
+    (hrx : rxOf peer f = some rx) (hfa : f.afi < 65536) (hfs : f.safi < 256) :
+    parseUpdate od peer (frame 2 ([0, 0] ++ be16 (encRaw (mpUnreachRaw f [])).length ++
+        encRaw (mpUnreachRaw f []))) = .msg (.eor f) := by
+  rw [parseUpdate_unreach_mp_gen od peer f [] [] rx hrx hfa hfs (by simp [nlriList]) (by simp)]
+  simp
 
 theorem parseUpdate_eor_ipv4 (od : OpaqueDec) (peer : Codec) :
     parseUpdate od peer (frame 2 [0, 0, 0, 0]) = .msg (.eor Fam.ipv4) := by
